@@ -712,6 +712,13 @@ class unyt_array(np.ndarray):
                     new_units, self.dtype
                 )
 
+            if self.dtype.kind in ("u", "i") and self.dtype.itemsize == 1:
+                # refuse before anything (the unit label included) has been changed
+                raise ValueError(
+                    "Can't convert memory buffer in place. "
+                    f"Input dtype ({self.dtype}) has a smaller itemsize than the "
+                    "smallest floating point representation possible."
+                )
             self.units = new_units
             values = self.d
             # if our dtype is an integer do the following somewhat awkward
@@ -722,12 +729,6 @@ class unyt_array(np.ndarray):
                 # form, it's possible this may lose precision for very
                 # large integers
                 dsize = values.dtype.itemsize
-                if dsize == 1:
-                    raise ValueError(
-                        "Can't convert memory buffer in place. "
-                        f"Input dtype ({self.dtype}) has a smaller itemsize than the "
-                        "smallest floating point representation possible."
-                    )
                 new_dtype = "f" + str(dsize)
                 large = LARGE_INPUT.get(dsize, 0)
                 if large and np.any(np.abs(values) >= large):
